@@ -651,7 +651,8 @@ def pad_sequences(prog: Program, rep: Report):
             neg_t = [p for p in parts if p[0] == "not" and p[1][0] == "call" and p[1][1] == ("global", "torch.is_tensor")]
             if is_t:
                 arg = is_t[0][2][0]
-                rank = [p for p in parts if p[0] == "lt" and contains(p, ("attr", arg, "ndim"))]
+                # (which ranks the comparison admits is judged by G9.pad-dispatch on ranks 0..4; here: there is a rank test)
+                rank = [p for p in parts if p[0] in ("lt", "le", "gt", "ge", "not", "eq", "ne") and contains(p, ("attr", arg, "ndim"))]
                 tensor_branch = (arg == ("sub", ("sub", B, ("const", 0)), I)) and bool(rank)
             elif cd[0] == "not" or cd[0] == "or":
                 # negated guard (else branch)
